@@ -415,7 +415,10 @@ def simulate(rng, tmp, p):
                 paired = rng.random() < p.get("paired", 0.0) and (b - a) >= 120
                 if paired:
                     lo, hi = p.get("mate_len", (30, (b - a) // 2 - 10))
-                    hi = min(hi, (b - a) // 2 - 10)
+                    if p.get("mate_overlap"):
+                        lo, hi = (b - a) // 2, int((b - a) * 0.85)  # the two mates overlap in the middle of the fragment
+                    else:
+                        hi = min(hi, (b - a) // 2 - 10)
                     lo = min(lo, hi)
                     l1 = rng.randint(lo, hi)
                     l2 = rng.randint(lo, hi)
